@@ -441,7 +441,12 @@ def organize(
             pass
         pass
     log.debug('organize() - setting queue')
-    dawgie.pl.schedule.que = sorted(jobs.values(), key=lambda i: i.get('level'))
+    # only jobs with something to do belong in the queue (there may be no
+    # targets to work on yet)
+    dawgie.pl.schedule.que = sorted(
+        filter(lambda j: j.get('todo') or j.get('doing'), jobs.values()),
+        key=lambda i: i.get('level'),
+    )
     return
 
 
@@ -485,6 +490,12 @@ def purge(node: dawgie.pl.dag.Node, target: str):
 
     for child in node:
         purge(child, target)
+
+    # a job left with nothing to do must not linger in the queue because it
+    # would block its descendants and keep the queue from ever being empty
+    if node in que and not (node.get('todo') or node.get('doing')):
+        que.remove(node)
+        node.set('status', State.waiting)
     return
 
 
